@@ -151,5 +151,14 @@ class Main(S.DispatchStream):
         return "%s / %s / v%s" % (size, case.get("kind"), case["ver"])
 
 
+from harness.props import c04 as C04      # noqa: E402
+
+
+class Overlap(C04.Overlap):
+    """ids and pairing when two requests overlap on one dispatcher (two handler threads, or a method that dispatches another
+    request on the same dispatcher): every response carries the id of ITS request (C04's `overlap` stream under C03's clauses)"""
+    PREFIX = "C03"
+
+
 def streams():
-    return [Main()]
+    return [Main(), Overlap()]
